@@ -871,6 +871,9 @@ func deserializeArrowSerializable(targetType reflect.Type, data []byte) (reflect
 		return reflect.Value{}, fmt.Errorf("no batch in ArrowSerializable IPC stream")
 	}
 	batch := reader.RecordBatch()
+	if batch.NumRows() == 0 {
+		return reflect.Value{}, fmt.Errorf("no row in ArrowSerializable IPC stream")
+	}
 
 	result := reflect.New(targetType).Elem()
 	for i := range targetType.NumField() {
